@@ -517,7 +517,8 @@ func genCase(t *rapid.T, many bool) Case {
 			continue
 		}
 		// sibling names that are string prefixes of each other (a / ab / a.d), a dot name, upper case
-		d := rapid.SampledFrom([]string{"a", "ab", "b", "a.d", ".c", "B"}).Draw(t, "dname")
+		// and names that merely CONTAIN dots next to each other: "..." / "..c" / "a..d" are ordinary names, not parent references
+		d := rapid.SampledFrom([]string{"a", "ab", "b", "a.d", ".c", "B", "a", "ab", "b", "a..d", "..c", "..."}).Draw(t, "dname")
 		if parent != "." {
 			d = parent + "/" + d
 		}
@@ -540,7 +541,7 @@ func genCase(t *rapid.T, many bool) Case {
 	var entries []Entry
 	big := rapid.IntRange(0, 9).Draw(t, "bigcase") == 0
 	for i := 0; i < nf; i++ {
-		p := fmt.Sprintf("f%d", i)
+		p := fmt.Sprintf(rapid.SampledFrom([]string{"f%d", "f%d", "f%d", "f%d", "f%d", "f%d", "f%d..x", "..f%d", "f%d.", ".f%d", "f%d x", "...%d"}).Draw(t, "fshape"), i)
 		if parent := rapid.SampledFrom(dirs).Draw(t, "fdir"); parent != "." {
 			p = parent + "/" + p
 		}
